@@ -826,7 +826,8 @@ Definition spec_combined (c : cfg) (i : input) (byframe : bool) (req : list Z) :
 
 (* ---- acceptance: arrays as numpy hands them over --------------------- *)
 (* facts that hold of every (unsigned / float) numpy array of the stated shape;
-   no condition on the CONTENT of the mask beyond the sign of unsigned values *)
+   no condition on the CONTENT of the mask beyond the sign of unsigned values
+   (hypothesis of C01_construct_ok_valid / C01_no_silent_corruption) *)
 Definition planes_shaped (c : cfg) (i : input) : bool :=
   match i with
   | Label ps => forallb (fun pl => zlen pl =? npix c) ps
